@@ -6,7 +6,7 @@
  kind=line   o_c09: one line per read -> item i after at most the reads that deliver its line"""
 from streams import docs
 
-OFF = {"o_c01": 1, "o_c04": 2, "o_c05": 1, "o_exp": 2, "o_c09": 2, "o_rt": 1, "o_b2c": 1}
+OFF = {"o_skip": 1, "o_c01": 1, "o_c04": 2, "o_c05": 1, "o_exp": 2, "o_c09": 2, "o_rt": 1, "o_b2c": 1}
 
 def class_edge_case(rng):
     """a byte just outside a scanner's character class directly before/after a keyword or numeral, delivered byte by
@@ -145,7 +145,21 @@ def gen_corrupt(rng, n):
         out.append("o_exp %s " % exp.encode().hex() + docs.setup(parser, ty, flags, data, sched))
     return out
 
-KINDS = {"limits": gen_limits, "corrupt": gen_corrupt, "rt": gen_rt, "chunk": gen_chunk, "fault": gen_fault, "safe": gen_safe, "expect": gen_expect, "line": gen_line}
+def gen_skip(rng, n):
+    """AIGER streaming API with at most N entries taken per section (kN): the section-switch methods skip — and still
+    check — the rest"""
+    out = []
+    while len(out) < n:
+        parser, ty, flags, data, _ = docs.gen_doc(rng, parser=rng.choice(["aag", "aig"]))
+        if "w" in flags:
+            flags = "-"
+        k = rng.choice([0, 0, 1, 1, 2, 3])
+        sched = docs.gen_schedule(rng, len(data)) if rng.random() < 0.3 else None
+        out.append("o_skip " + docs.setup(parser, ty, "k%d" % k, data, sched))
+    return out
+
+
+KINDS = {"skip": gen_skip, "limits": gen_limits, "corrupt": gen_corrupt, "rt": gen_rt, "chunk": gen_chunk, "fault": gen_fault, "safe": gen_safe, "expect": gen_expect, "line": gen_line}
 
 def gen(rng, n, tier, kind="chunk", **kw):
     return KINDS[kind](rng, n)
